@@ -13,3 +13,39 @@ def scope(fid):
         SCOPES[fid] = fn
         return fn
     return deco
+
+
+@scope("F-TOML-NULL-NONSYNTACTIC")
+def _toml_null(pid, v):
+    c = v["case"]
+    if c.get("format") != "toml":
+        return False
+    facts = c.get("facts") or {}
+    if pid == "C02":
+        return (v["clause"] == "ref-encode-neq" and facts.get("only_extra_null_keys") is True
+                and facts.get("nonsyntactic_nullable_field") is True)
+    if pid == "C04":
+        return (v["clause"] == "encode-raised" and v["outcome"] == "TypeError"
+                and facts.get("nonsyntactic_nullable_field") is True and facts.get("value_has_null_there") is True)
+    return False
+
+
+@scope("F-UNION-NONE-FALLBACK")
+def _union_none(pid, v):
+    facts = (v["case"].get("facts") or {})
+    if not (facts.get("union3_with_none") is True and facts.get("none_fallback_reproduces") is True):
+        return False
+    if pid == "C03":
+        return v["clause"] in ("accepted-rejected-input", "ref-decode-neq")
+    if pid == "C11":
+        return v["clause"] in ("union-accepted-rejected-input", "union-ref-decode-neq")
+    if pid == "C05":
+        return v["clause"] == "swallowed-as-none"
+    return False
+
+
+@scope("F-NT-DEFAULT-INDEXERROR")
+def _nt_swallow(pid, v):
+    facts = (v["case"].get("facts") or {})
+    return (pid in ("C03", "C05") and facts.get("nt_swallow_reproduces") is True
+            and v["clause"] in ("accepted-rejected-input", "ref-decode-neq", "swallowed-as-default"))
